@@ -5,8 +5,8 @@
    of operands).  They are compositions of the selection lemmas of Proof/X86Sel.v and of the
    parallel-move theorem of Proof/X86ParMoves.v with the state relation of Proof/X86SimRel.v. *)
 From Coq Require Import List ZArith NArith String Bool Lia FMapPositive.
-From SCC Require Import Base.Sexp Lang.AxSyn Sem.AxSem Model.ParMoves Model.Backend Model.X86 Sem.X86Sem
-     Generated.Constants Proof.X86State Proof.X86Sel Proof.X86Exec Proof.X86ParMoves Proof.SubstGraph Proof.X86Subst
+From SCC Require Import Base.Sexp Lang.AxSyn Sem.AxSem Model.ParMoves Model.Backend Model.X86 Sem.X86Sem Sem.X86Wf
+     Model.Linearize Model.LinCheck Generated.Constants Proof.LinBasics Proof.X86State Proof.X86Sel Proof.X86Exec Proof.X86ParMoves Proof.SubstGraph Proof.X86Subst
      Proof.X86SimRel.
 Import ListNotations.
 Open Scope Z_scope.
@@ -174,6 +174,8 @@ Local Transparent slot_off stack_offset.
 (* ================= statement-level simulation ================= *)
 Section Sim.
 Variable im : image.
+Variable CL : Z -> ident -> list clause -> Prop.
+Local Notation rel := (rel CL).
 
 (* the temporary of a fresh last variable *)
 Lemma vt_fresh c v t :
@@ -192,7 +194,7 @@ Theorem sim_literal c e s sp n v tv :
 Proof.
   intros R ND TV. apply (vt_fresh c v tv ND) in TV.
   destruct (xtpos_ok _ _ _ TV) as (L & NT & _).
-  destruct (x86_load_immediate_ok im s sp tv n (rel_frame _ _ _ _ R) L NT) as (s' & E & V & P).
+  destruct (x86_load_immediate_ok im s sp tv n (rel_frame R) L NT) as (s' & E & V & P).
   exists s'. split; [exact E|]. split; [eapply rel_push; eauto|].
   eapply exec_straight_local; eauto using rel_frame. apply local_load_immediate, loc_ok_lok, L.
 Qed.
@@ -206,8 +208,8 @@ Lemma op_temps c e s sp a b v x y tv ta tb :
   xtpos Snd (List.length c) = Ok tv /\ div_pre tv ta tb /\ lget s sp ta = Some x /\ lget s sp tb = Some y.
 Proof.
   intros R ND LA LB TV TA TB. apply (vt_fresh c v tv ND) in TV.
-  destruct (rel_lookup c e s sp a x R LA) as (i & bi & ti & Hi & Ei & Ti & Vi).
-  destruct (rel_lookup c e s sp b y R LB) as (j & bj & tj & Hj & Ej & Tj & Vj).
+  destruct (rel_lookup CL c e s sp a x R LA) as (i & bi & ti & Hi & Ei & Ti & Vi).
+  destruct (rel_lookup CL c e s sp b y R LB) as (j & bj & tj & Hj & Ej & Tj & Vj).
   rewrite <- Ei, (vt_of_nth c _ i bi ND Hi), Ti in TA. inversion TA; subst ti.
   rewrite <- Ej, (vt_of_nth c _ j bj ND Hj), Tj in TB. inversion TB; subst tj.
   assert (Li : (i < List.length c)%nat) by (apply nth_error_Some; congruence).
@@ -234,7 +236,7 @@ Theorem sim_op c e s sp a o b v x y z tv ta tb :
 Proof.
   intros R ND LA LB EV TV TA TB.
   destruct (op_temps c e s sp a b v x y tv ta tb R ND LA LB TV TA TB) as (TV' & PRE & VA & VB).
-  destruct (x86_arith_ok im o s sp tv ta tb x y z (rel_frame _ _ _ _ R) PRE VA VB EV) as (s' & E & V & P).
+  destruct (x86_arith_ok im o s sp tv ta tb x y z (rel_frame R) PRE VA VB EV) as (s' & E & V & P).
   exists s'. split; [exact E|]. split; [eapply rel_push; eauto|].
   eapply exec_straight_local; eauto using rel_frame. apply local_x_arith, loc_ok_lok, PRE.
 Qed.
@@ -357,15 +359,17 @@ Proof.
   intros R ND LA LB EV TV TA TB.
   destruct (op_temps c e s sp a b v x y tv ta tb R ND LA LB TV TA TB) as (TV' & PRE & VA & VB).
   destruct o; cbn [eval_op x_arith] in *; try discriminate.
-  - apply (div_rem_undef false s sp tv ta tb x y w (rel_frame _ _ _ _ R) PRE VA VB).
+  - apply (div_rem_undef false s sp tv ta tb x y w (rel_frame R) PRE VA VB).
     destruct (y =? 0); [exact EV|]. destruct ((x =? min_int) && (y =? -1)); [exact EV|discriminate].
-  - apply (div_rem_undef true s sp tv ta tb x y w (rel_frame _ _ _ _ R) PRE VA VB).
+  - apply (div_rem_undef true s sp tv ta tb x y w (rel_frame R) PRE VA VB).
     destruct (y =? 0); [exact EV|]. destruct ((x =? min_int) && (y =? -1)); [exact EV|discriminate].
 Qed.
 End Sim.
 
 Section Sim2.
 Variable im : image.
+Variable CL : Z -> ident -> list clause -> Prop.
+Local Notation rel := (rel CL).
 
 (* ---------- IfC: the comparison, then the conditional jump ---------- *)
 Theorem sim_compare2 c e s sp a b x y ta tb :
@@ -375,14 +379,16 @@ Theorem sim_compare2 c e s sp a b x y ta tb :
              rel c e s' sp /\ frame_eq s s' sp.
 Proof.
   intros R LA LB TA TB.
-  destruct (rel_lookup c e s sp a x R LA) as (i & bi & ti & Hi & Ei & Ti & Vi).
-  destruct (rel_lookup c e s sp b y R LB) as (j & bj & tj & Hj & Ej & Tj & Vj).
-  rewrite <- Ei, (vt_of_nth0 c i bi (rel_nodup _ _ _ _ R) Hi), Ti in TA. inversion TA; subst ti.
-  rewrite <- Ej, (vt_of_nth0 c j bj (rel_nodup _ _ _ _ R) Hj), Tj in TB. inversion TB; subst tj.
+  destruct (rel_lookup CL c e s sp a x R LA) as (i & bi & ti & Hi & Ei & Ti & Vi).
+  destruct (rel_lookup CL c e s sp b y R LB) as (j & bj & tj & Hj & Ej & Tj & Vj).
+  rewrite <- Ei, (vt_of_nth0 c i bi (rel_nodup R) Hi), Ti in TA. inversion TA; subst ti.
+  rewrite <- Ej, (vt_of_nth0 c j bj (rel_nodup R) Hj), Tj in TB. inversion TB; subst tj.
   destruct (xtpos_ok _ _ _ Ti) as (L1 & N1 & _). destruct (xtpos_ok _ _ _ Tj) as (L2 & N2 & _).
-  destruct (x86_compare_ok im s sp ta tb x y (rel_frame _ _ _ _ R) L1 L2 N1 N2 Vi Vj) as (s' & E & FL & K & _ & _ & F').
+  destruct (x86_compare_ok im s sp ta tb x y (rel_frame R) L1 L2 N1 N2 Vi Vj) as (s' & E & FL & K & _ & _ & F').
   exists s'. split; [exact E|]. split; [exact FL|]. split.
-  - apply (rel_keep c e s s' sp R F'). intros k t _ Hk. destruct (xtpos_ok _ _ _ Hk) as (A & B & _). now apply K.
+  - apply (rel_keep CL c e s s' sp R F').
+    + apply (K (XR FREE)); [cbn; discriminate|discriminate].
+    + intros k b0 n t _ _ Hk. destruct (xtpos_ok _ _ _ Hk) as (A & B & _). now apply K.
   - eapply exec_straight_local; eauto using rel_frame. apply local_compare.
 Qed.
 Theorem sim_compare1 c e s sp a x ta :
@@ -391,13 +397,13 @@ Theorem sim_compare1 c e s sp a x ta :
              rel c e s' sp /\ frame_eq s s' sp.
 Proof.
   intros R LA TA.
-  destruct (rel_lookup c e s sp a x R LA) as (i & bi & ti & Hi & Ei & Ti & Vi).
-  rewrite <- Ei, (vt_of_nth0 c i bi (rel_nodup _ _ _ _ R) Hi), Ti in TA. inversion TA; subst ti.
+  destruct (rel_lookup CL c e s sp a x R LA) as (i & bi & ti & Hi & Ei & Ti & Vi).
+  rewrite <- Ei, (vt_of_nth0 c i bi (rel_nodup R) Hi), Ti in TA. inversion TA; subst ti.
   destruct (xtpos_ok _ _ _ Ti) as (L1 & N1 & _).
-  exists (set_flags s (Some (x, 0))). split; [apply (x86_compare_zero_ok im s sp ta x (rel_frame _ _ _ _ R) L1 Vi)|].
+  exists (set_flags s (Some (x, 0))). split; [apply (x86_compare_zero_ok im s sp ta x (rel_frame R) L1 Vi)|].
   split; [reflexivity|]. split; [|apply frame_eq_set_flags].
-  apply (rel_keep c e s _ sp R); [apply frame_ok_set_flags, (rel_frame _ _ _ _ R)|].
-  intros k t _ _. apply lget_set_flags.
+  apply (rel_keep CL c e s _ sp R); [apply frame_ok_set_flags, (rel_frame R)|reflexivity|].
+  intros k b0 n t _ _ _. apply lget_set_flags.
 Qed.
 
 (* the whole conditional inside an image: control reaches the first instruction of the branch the
@@ -455,10 +461,10 @@ Theorem sim_exit_mov c e s sp v z tv :
              frame_ok s' sp /\ frame_eq s s' sp.
 Proof.
   intros R LV TV.
-  destruct (rel_lookup c e s sp v z R LV) as (i & bi & ti & Hi & Ei & Ti & Vi).
-  rewrite <- Ei, (vt_of_nth0 c i bi (rel_nodup _ _ _ _ R) Hi), Ti in TV. inversion TV; subst ti.
+  destruct (rel_lookup CL c e s sp v z R LV) as (i & bi & ti & Hi & Ei & Ti & Vi).
+  rewrite <- Ei, (vt_of_nth0 c i bi (rel_nodup R) Hi), Ti in TV. inversion TV; subst ti.
   destruct (xtpos_ok _ _ _ Ti) as (L1 & N1 & _).
-  destruct (x86_mov_ok im s sp (XR RETURN1) tv (rel_frame _ _ _ _ R)) as (s' & E & V & P); auto; try (cbn; discriminate).
+  destruct (x86_mov_ok im s sp (XR RETURN1) tv (rel_frame R)) as (s' & E & V & P); auto; try (cbn; discriminate).
   exists s'. split; [exact E|]. split; [cbn [lget] in V; congruence|].
   eapply exec_straight_local; eauto using rel_frame. apply local_x_mov. reflexivity.
 Qed.
@@ -506,31 +512,175 @@ Proof.
   intros H Hn. unfold ctx_int in H. rewrite forallb_forall in H. specialize (H b (nth_error_In _ _ Hn)).
   unfold is_int_binding in H. destruct (bchi b), (bty b); try discriminate; auto.
 Qed.
+Lemma cwc_ctx_int c re lc : ctx_int c = true -> NoDup (ids c) ->
+  code_weakening_contraction x86_backend (transpose re c) c lc = Ok ([], lc).
+Proof.
+  intros CI ND. apply cwc_int. intros b tg Hin.
+  apply (In_transpose re c b tg (NoDup_map_inv _ _ ND)) in Hin as (Hin & _).
+  apply In_nth_error in Hin as (i & Hi). apply (ctx_int_nth c i b CI Hi).
+Qed.
+
+(* the labels of the reference-count code are branch labels `lab<n>` *)
+Definition nh_labels (cs : list xcode) : Prop :=
+  Forall (fun c => match c with LAB l => is_hash_label l = false | _ => True end) cs.
+Lemma nh_labels_app a b : nh_labels a -> nh_labels b -> nh_labels (a ++ b).
+Proof. intros A B. apply Forall_app. split; assumption. Qed.
+Lemma labels_at_of_nh im pc cs : nh_labels cs -> labels_at_nh im pc cs -> labels_at im pc cs.
+Proof.
+  intros NH LA j l Hj. apply LA; auto. unfold nh_labels in NH. rewrite Forall_forall in NH.
+  exact (NH _ (nth_error_In _ _ Hj)).
+Qed.
+Lemma nh_lab n : is_hash_label (lab n) = false. Proof. reflexivity. Qed.
+Ltac nh_tac :=
+  repeat first [ apply Forall_nil | apply Forall_cons; [first [exact I | apply nh_lab | reflexivity]|]
+               | apply nh_labels_app ].
+Lemma nh_compare_immediate t i : nh_labels (compare_immediate t i).
+Proof. destruct t; cbn; nh_tac. Qed.
+Lemma nh_skip_if_zero t body lc : nh_labels body -> nh_labels (fst (skip_if_zero t body lc)).
+Proof. intros H. unfold skip_if_zero. cbn [fst]. nh_tac; auto using nh_compare_immediate. Qed.
+Lemma nh_if_zero_then_else r o tb eb lc : nh_labels tb -> nh_labels eb -> nh_labels (fst (if_zero_then_else r o tb eb lc)).
+Proof. intros H1 H2. unfold if_zero_then_else. cbn [fst]. destruct o; nh_tac; auto. Qed.
+Lemma nh_erase t lc : nh_labels (fst (x_erase_block t lc)).
+Proof.
+  unfold x_erase_block, erase_valid_object. destruct t as [r|p].
+  - destruct (if_zero_then_else _ _ _ _ lc) as [c lc1] eqn:E. apply nh_skip_if_zero.
+    replace c with (fst (if_zero_then_else r (Some REFERENCE_COUNT_OFFSET) [MOVS FREE r NEXT_ELEMENT_OFFSET; MOV FREE r] [ADDIM r REFERENCE_COUNT_OFFSET (-1)] lc)) by (now rewrite E).
+    apply nh_if_zero_then_else; nh_tac.
+  - destruct (if_zero_then_else _ _ _ _ lc) as [c lc1] eqn:E.
+    destruct (skip_if_zero (XR TEMP) c lc1) as [c2 lc2] eqn:E2. cbn [fst].
+    apply nh_labels_app; [nh_tac|]. replace c2 with (fst (skip_if_zero (XR TEMP) c lc1)) by (now rewrite E2).
+    apply nh_skip_if_zero.
+    replace c with (fst (if_zero_then_else TEMP (Some REFERENCE_COUNT_OFFSET) [MOVS FREE TEMP NEXT_ELEMENT_OFFSET; MOV FREE TEMP] [ADDIM TEMP REFERENCE_COUNT_OFFSET (-1)] lc)) by (now rewrite E).
+    apply nh_if_zero_then_else; nh_tac.
+Qed.
+Lemma nh_share t n lc : nh_labels (fst (x_share_block_n t n lc)).
+Proof. unfold x_share_block_n. destruct t; apply nh_skip_if_zero; nh_tac. Qed.
+Lemma nh_emit_rc : forall ops lc, nh_labels (fst (emit_rc x86_backend ops lc)).
+Proof.
+  induction ops as [|o ops IH]; intros lc; cbn [emit_rc]; [constructor|].
+  destruct (emit_rc_op x86_backend o lc) as [c1 lc1] eqn:E1. destruct (emit_rc x86_backend ops lc1) as [c2 lc2] eqn:E2.
+  cbn [fst]. apply nh_labels_app.
+  - replace c1 with (fst (emit_rc_op x86_backend o lc)) by (now rewrite E1).
+    destruct o; cbn [emit_rc_op b_erase b_share_n x86_backend x86_backend_with]; [apply nh_erase|apply nh_share].
+  - replace c2 with (fst (emit_rc x86_backend ops lc1)) by (now rewrite E2). apply IH.
+Qed.
 
 Section Sim3.
 Variable im : image.
+Variable CL : Z -> ident -> list clause -> Prop.
+Local Notation rel := (rel CL).
 
-Theorem sim_substitute c e s sp re vs e' c1 lc lc1 c2 :
-  rel c e s sp -> ctx_int c = true -> NoDup (new_ids re) ->
+(* the temporaries of a source position and of a new position it is assigned to are defined and
+   joined by an edge of the move graph, because the moves were emitted *)
+Lemma subst_edge c re am n i bi j pj :
+  NoDup (ids c) -> NoDup (new_ids re) ->
+  connections x86_backend (transpose re c) c (map fst re) = Ok am ->
+  nth_error c i = Some bi -> allowed n bi -> nth_error re j = Some pj -> idn (snd pj) = idn (bvar bi) ->
+  exists ta tb, xtpos n i = Ok ta /\ xtpos n j = Ok tb /\ edge xtemp xeqb am ta tb.
+Proof.
+  intros NDc NDn CN Hbi AL Hre EQ.
+  destruct (all_ok x86_backend x86_backend_ok c re am NDc NDn CN n i bi Hbi AL) as (a & ts & K & _).
+  pose proof (connections_edges x86_backend x86_backend_ok c re am NDc NDn CN) as EDG.
+  unfold op_kv in K. rewrite (vt_tpos x86_backend n c i bi NDc Hbi) in K.
+  destruct (xtpos n i) as [ta|] eqn:TA; cbn [rbind] in K; [|discriminate].
+  destruct (rmap _ (targets re bi)) as [ts0|] eqn:RM; cbn [rbind] in K; [|discriminate].
+  apply rmap_Forall2 in RM.
+  assert (In (idn (bvar (fst pj))) (targets re bi)) as I.
+  { unfold targets. apply in_map_iff. exists pj. split; auto. apply filter_In. split.
+    - eapply nth_error_In; eauto.
+    - apply N.eqb_eq. congruence. }
+  destruct (Forall2_In_l _ _ _ _ RM I) as (tb & _ & Vy). cbn beta in Vy.
+  rewrite (vt_tpos_new x86_backend n re j pj NDn Hre) in Vy.
+  exists ta, tb. split; [reflexivity|]. split; [exact Vy|]. apply EDG. exists i, j, bi, pj, n. repeat split; auto.
+Qed.
+
+(* Substitute, any mix of integer and closure variables: the reference-count code (one skipped
+   erase / share per closure variable that is dropped / duplicated: the block pointer of a closure without
+   captured variables is null) followed by the parallel moves leaves the machine's rearranged environment in
+   the temporaries of the new context *)
+Theorem sim_substitute c e s sp re vs e' c1 lc lc1 c2 pc :
+  rel c e s sp -> NoDup (new_ids re) ->
+  (forall q, In q re -> has c (snd q) (bchi (fst q)) (bty (fst q)) = true) ->
   lookups e (map snd re) = Some vs -> bind (map (fun r => bvar (fst r)) re) vs = Some e' ->
   code_weakening_contraction x86_backend (transpose re c) c lc = Ok (c1, lc1) ->
   code_exchange x86_backend (transpose re c) c (map fst re) = Ok c2 ->
-  c1 = [] /\ lc1 = lc /\
-  exists s', exec_straight im c2 s = Some s' /\ rel (map fst re) e' s' sp /\ frame_eq s s' sp.
+  code_at im pc (c1 ++ c2) -> labels_at_nh im pc (c1 ++ c2) ->
+  exists s', exec_to im pc s (padd pc (List.length (c1 ++ c2))) s' /\ rel (map fst re) e' s' sp /\ frame_eq s s' sp.
 Proof.
-  intros R CI NDn LK BD WC CE.
-  pose proof (rel_nodup _ _ _ _ R) as NDc.
-  (* no reference counts *)
-  rewrite cwc_int in WC.
-  2:{ intros b tg Hin. apply (In_transpose re c b tg (NoDup_map_inv _ _ NDc)) in Hin as (Hin & _).
-      apply In_nth_error in Hin as (i & Hi). apply (ctx_int_nth c i b CI Hi). }
-  inversion WC; subst c1 lc1. split; [reflexivity|]. split; [reflexivity|].
-  (* the parallel moves *)
+  intros R NDn KIND LK BD WC CE CA LA.
+  pose proof (rel_nodup R) as NDc. pose proof (rel_frame R) as F. pose proof (rel_length R) as LEN.
+  apply code_at_app in CA as [CA1 CA2]. apply labels_at_nh_app in LA as [LA1 _].
   unfold code_exchange in CE.
   destruct (connections x86_backend (transpose re c) c (map fst re)) as [am|] eqn:CN; cbn [rbind] in CE; [|discriminate].
-  destruct (transpose_connections_indeg1 x86_backend x86_backend_ok c re am NDc NDn CN) as (ID & NT & SRT & KEYS).
+  (* every new variable has a source position of the same kind and type *)
+  assert (SRC : forall j pj, nth_error re j = Some pj ->
+            exists i bi, nth_error c i = Some bi /\ idn (bvar bi) = idn (snd pj) /\
+                         bchi bi = bchi (fst pj) /\ bty bi = bty (fst pj)).
+  { intros j pj Hj. specialize (KIND pj (nth_error_In _ _ Hj)). unfold has in KIND.
+    destruct (lookup_b c (idn (snd pj))) as [bi|] eqn:LB; [|discriminate].
+    apply lookup_b_Some in LB as [Hin Hid]. apply andb_true_iff in KIND as [K1 K2].
+    apply chi_eqb_eq in K1. apply ty_eqb_eq in K2. apply In_nth_error in Hin as (i & Hi). eauto 8. }
+  (* far fewer new variables than 2^31: each has a temporary *)
+  assert (LR : Z.of_nat (List.length re) <= 2147483647).
+  { destruct (Nat.le_gt_cases (List.length re) 1000) as [L|L]; [lia|]. exfalso.
+    destruct (nth_error re 1000) as [pj|] eqn:Hj; [|apply nth_error_None in Hj; lia].
+    destruct (SRC _ _ Hj) as (i & bi & Hi & Ei & _).
+    destruct (subst_edge c re am Snd i bi 1000%nat pj NDc NDn CN Hi (or_introl eq_refl) Hj (eq_sym Ei)) as (_ & tb & _ & Tb & _).
+    vm_compute in Tb. discriminate. }
+  (* phase 1: reference counts, all on null pointers *)
+  destruct (weakening_contraction_counts x86_backend c re lc c1 lc1 NDc WC) as (order & PERM & _ & ORD & ops & F2 & EM).
+  assert (OBJ : forall i b, In (i, b) order -> is_obj b = true).
+  { intros i b Hin. assert (In b (map snd order)) as Hb by (apply in_map_iff; exists (i, b); auto).
+    eapply Permutation.Permutation_in in Hb; [|exact PERM]. apply filter_In in Hb. tauto. }
+  assert (NULL : forall i b t, In (i, b) order -> xtpos Fst i = Ok t -> lget s sp t = Some 0).
+  { intros i b t Hin Ht. pose proof (ORD i b Hin) as Hnth. pose proof (OBJ i b Hin) as Ho.
+    assert (Li : (i < List.length e)%nat) by (rewrite LEN; apply nth_error_Some; congruence).
+    destruct (nth_error e i) as [[y v]|] eqn:He; [|apply nth_error_None in He; lia].
+    destruct (rel_vals R i y v He) as (b' & Hb' & V). assert (b' = b) by congruence. subst b'.
+    inversion V; subst.
+    - unfold is_obj in Ho. rewrite H in Ho. discriminate.
+    - congruence. }
+  assert (RCOK : Forall (rc_ok s sp) (List.concat ops)).
+  { apply Forall_concat. clear EM PERM. induction F2 as [|[i b] o order' ops' (t & Ht & ->) _ IHF]; constructor.
+    - cbn [fst snd] in *.
+      destruct (xtpos_var_temp Fst i t Ht) as (VT & NF & _).
+      pose proof (NULL i b t (or_introl eq_refl) Ht) as Hp.
+      pose proof (count_targets_le re b) as LE.
+      destruct (count_targets re b) as [|[|k]]; cbn [rc_op_for].
+      + constructor; [|constructor]. unfold rc_ok; cbn [rc_temp].
+        split; [exact VT|split; [exact NF|split; [exists 0; auto|exact I]]].
+      + constructor.
+      + constructor; [|constructor]. unfold rc_ok; cbn [rc_temp].
+        split; [exact VT|split; [exact NF|split; [exists 0; auto|]]].
+        unfold fits32. apply andb_true_iff. split; apply Z.leb_le; lia.
+    - apply IHF; intros; [apply ORD|eapply OBJ|eapply NULL]; try right; eauto. }
+  assert (EMc : c1 = fst (emit_rc x86_backend (List.concat ops) lc)) by (now rewrite <- EM).
+  destruct (rel_free R) as (f & FR).
+  assert (LA1' : labels_at im pc c1) by (apply labels_at_of_nh; [rewrite EMc; apply nh_emit_rc|exact LA1]).
+  rewrite EMc in CA1, LA1'.
+  destruct (x86_emit_rc_ok im s sp (List.concat ops) pc lc s f RCOK (fun r _ _ => eq_refl) eq_refl CA1 LA1' F FR)
+    as (s1 & f1 & X1 & X2 & X3 & X4 & X5 & X6).
+  rewrite <- EMc in X1.
+  (* null pointers: heap and rbp are unchanged *)
+  assert (ID : fold_left (fun hf o => rc_h s sp o hf) (List.concat ops) (heap s, f) = (heap s, f)).
+  { clear -RCOK NULL F2 ORD. revert RCOK. generalize (heap s, f) as hf.
+    assert (Z0 : Forall (fun o => ptr_of s sp (rc_temp o) = 0) (List.concat ops)).
+    { apply Forall_concat. induction F2 as [|[i b] o order' ops' (t & Ht & ->) _ IHF]; constructor.
+      - cbn [fst snd] in *. pose proof (NULL i b t (or_introl eq_refl) Ht) as Hp.
+        destruct (count_targets re b) as [|[|k]]; cbn [rc_op_for]; repeat constructor; cbn [rc_temp]; unfold ptr_of; now rewrite Hp.
+      - apply IHF; intros; [apply ORD|eapply NULL]; try right; eauto. }
+    induction Z0 as [|o l Ho _ IH]; intros hf RC; cbn [fold_left]; [reflexivity|].
+    inversion RC; subst. rewrite <- IH by assumption. f_equal.
+    destruct o; cbn [rc_h rc_temp] in *; rewrite Ho; unfold erase_h, share_h; reflexivity. }
+  rewrite ID in X3. inversion X3 as [[HP FQ]]. subst f1.
+  assert (F1 : frame_ok s1 sp).
+  { destruct F as [A B]. split; [|exact B]. rewrite X4; [exact A|discriminate|discriminate]. }
+  assert (AG : forall t, var_temp t -> t <> XR FREE -> lget s1 sp t = lget s sp t).
+  { intros t VT NF. apply lget_agree; auto. }
+  (* phase 2: the parallel moves *)
+  destruct (transpose_connections_indeg1 x86_backend x86_backend_ok c re am NDc NDn CN) as (IDG & NT & SRT & KEYS).
   pose proof (connections_edges x86_backend x86_backend_ok c re am NDc NDn CN) as EDG.
-  assert (VTam : forall t, In t (map fst am) \/ In t (all_targets xtemp am) -> var_temp t).
+  assert (VTam : forall t, In t (map fst am) \/ In t (all_targets xtemp am) -> var_temp t /\ t <> XR FREE).
   { intros t [Hk|Ht].
     - destruct (KEYS t Hk) as (i & bi & n & _ & _ & Hp). destruct (xtpos_var_temp n i t Hp); tauto.
     - unfold all_targets in Ht. apply in_flat_map in Ht as ([k ts] & Hin & Ht). cbn [snd] in Ht.
@@ -538,33 +688,45 @@ Proof.
       { exists ts. split; [|exact Ht]. apply lookup_of_In; auto.
         apply (sorted_nodup xtemp_compare (cmp_eq x86_backend x86_backend_ok)). exact SRT. }
       apply EDG in E as (i & j & bi & pj & n & _ & _ & _ & _ & _ & Hb). destruct (xtpos_var_temp n j t Hb); tauto. }
-  destruct (x86_parallel_moves_ok im am c2 s sp ID NT VTam CE (rel_frame _ _ _ _ R)) as (s' & E2 & P1 & P2 & F' & SF).
-  exists s'. split; [exact E2|]. split; [|apply same_frame_eq; exact SF].
-  destruct R as [F0 Al Ro Ids ND0 Vals]. split; auto.
-  - unfold env_ids. rewrite <- (map_map fst idn), (bind_ids _ _ _ BD). unfold ids. now rewrite !map_map.
-  - now rewrite ids_new.
-  - intros j x v Hj.
-    destruct (bind_nth _ _ _ _ _ _ BD Hj) as (Hx & Hv).
-    rewrite nth_error_map in Hx. destruct (nth_error re j) as [pj|] eqn:Hre; [|discriminate]. cbn in Hx. inversion Hx; subst x.
-    destruct (lookups_nth e (map snd re) vs j (snd pj) LK) as (v' & Hv' & LV).
-    { now rewrite nth_error_map, Hre. }
-    assert (v' = v) by congruence. subst v'.
-    unfold lookup_id in LV. destruct (lookup_nth e _ _ LV) as (i & y & Hi & Ey).
-    destruct (env_ctx_nth c e i y v Ids Hi) as (bi & Hbi & Ebi).
-    destruct (Vals i y v Hi) as (z & ta & -> & Ta & Va).
-    (* the j-th new variable has a temporary, because the moves were emitted *)
-    destruct (all_ok x86_backend x86_backend_ok c re am NDc NDn CN Snd i bi Hbi (or_introl eq_refl)) as (a & ts & K & _).
-    assert (TJ : exists tb, xtpos Snd j = Ok tb).
-    { unfold op_kv in K. destruct (variable_temporary x86_backend Snd c (idn (bvar bi))); cbn [rbind] in K; [|discriminate].
-      destruct (rmap _ (targets re bi)) as [ts0|] eqn:RM; cbn [rbind] in K; [|discriminate].
-      apply rmap_Forall2 in RM.
-      assert (In (idn (bvar (fst pj))) (targets re bi)) as I.
-      { unfold targets. apply in_map_iff. exists pj. split; auto. apply filter_In. split.
-        - eapply nth_error_In; eauto.
-        - apply N.eqb_eq. congruence. }
-      destruct (Forall2_In_l _ _ _ _ RM I) as (tb & _ & Vy). cbn beta in Vy.
-      rewrite (vt_tpos_new x86_backend Snd re j pj NDn Hre) in Vy. eauto. }
-    destruct TJ as (tb & Tb). exists z, tb. repeat split; auto.
-    rewrite (P1 ta tb); [exact Va|]. apply EDG. exists i, j, bi, pj, Snd. repeat split; auto. congruence.
+  destruct (x86_parallel_moves_ok im am c2 s1 sp IDG NT (fun t H => proj1 (VTam t H)) CE F1) as (s2 & E2 & P1 & P2 & F2' & SF).
+  pose proof (exec_straight_exec_to im c2 _ s1 s2 CA2 E2) as X2'.
+  assert (FREE2 : rget s2 FREE = Some f).
+  { rewrite <- X2. change (rget s2 FREE) with (lget s2 sp (XR FREE)). change (rget s1 FREE) with (lget s1 sp (XR FREE)).
+    apply P2.
+    + unfold var_temp; cbn [loc_ok]. change FREE with 3%N. change TEMP with 1%N. repeat split; congruence.
+    + intros a E. assert (In (XR FREE) (all_targets xtemp am)) as Hin by (eapply edge_all_targets; eauto).
+      destruct (VTam (XR FREE) (or_intror Hin)) as [_ N]. congruence. }
+  exists s2. split; [rewrite app_length, padd_add; eapply exec_to_trans; eauto|]. split.
+  - destruct R as [F0 Al Ro Fr Ids ND0 Vals]. split; auto.
+    + eauto.
+    + unfold env_ids. rewrite <- (map_map fst idn), (bind_ids _ _ _ BD). unfold ids. now rewrite !map_map.
+    + now rewrite ids_new.
+    + intros j x v Hj.
+      destruct (bind_nth _ _ _ _ _ _ BD Hj) as (Hx & Hv).
+      rewrite nth_error_map in Hx. destruct (nth_error re j) as [pj|] eqn:Hre; [|discriminate]. cbn in Hx. inversion Hx; subst x.
+      exists (fst pj). split; [now rewrite nth_error_map, Hre|].
+      destruct (lookups_nth e (map snd re) vs j (snd pj) LK) as (v' & Hv' & LV).
+      { now rewrite nth_error_map, Hre. }
+      assert (v' = v) by congruence. subst v'.
+      unfold lookup_id in LV. destruct (lookup_nth e _ _ LV) as (i & y & Hi & Ey).
+      destruct (Vals i y v Hi) as (bi & Hbi & V).
+      destruct (SRC j pj Hre) as (i' & bi' & Hi' & Ei' & KC & KT).
+      assert (i' = i).
+      { destruct (env_ctx_nth c e i y v Ids Hi) as (b0 & Hb0 & Eb0).
+        eapply (ids_nth_inj c i' i bi' b0); eauto. congruence. }
+      subst i'. assert (bi' = bi) by congruence. subst bi'.
+      assert (MV : forall n ta, allowed n bi -> xtpos n i = Ok ta -> exists tb, xtpos n j = Ok tb /\ lget s2 sp tb = lget s sp ta).
+      { intros n ta AL Ta.
+        destruct (subst_edge c re am n i bi j pj NDc NDn CN Hbi AL Hre (eq_sym Ei')) as (ta' & tb & Ta' & Tb & ED).
+        assert (ta' = ta) by congruence. subst ta'. exists tb. split; [exact Tb|].
+        rewrite (P1 ta tb ED). destruct (xtpos_var_temp n i ta Ta) as (VT & NF & _). now apply AG. }
+      inversion V; subst.
+      * destruct (MV Snd t (or_introl eq_refl) H1) as (tb & Tb & Lb).
+        eapply vrep_int; eauto; congruence.
+      * assert (AL : forall n, allowed n bi) by (intros n; right; congruence).
+        destruct (MV Fst t1 (AL Fst) H1) as (tb1 & Tb1 & Lb1). destruct (MV Snd t2 (AL Snd) H2) as (tb2 & Tb2 & Lb2).
+        eapply vrep_clo; eauto; congruence.
+  - destruct SF as (SH & SO & _ & _ & SK). repeat split; try congruence.
+    intros k Hk. rewrite (SK k Hk). now rewrite X5.
 Qed.
 End Sim3.
